@@ -40,7 +40,7 @@ def expected_seq(driver, L):
         return list(range(L))
     if driver == 'rrule':
         return [D0 + D.timedelta(days=i) for i in range(L)]
-    if driver == 'set':
+    if driver in ('set', 'nested'):
         return [D0 + D.timedelta(days=i) for i in range(L)]
     raise ValueError(driver)
 
@@ -79,24 +79,67 @@ def make_rule(driver, L):
                 s.rrule(RR.rrule(RR.DAILY, dtstart=D0 + D.timedelta(days=1), interval=2, count=L // 2))
             s.rdate(D0)
         return s
+    if driver == 'nested':
+        # a cached set whose members are cached rules themselves (one of them in both roles would exclude everything,
+        # so the exclusion rule is a cached rule of its own that excludes nothing inside the range)
+        s = RR.rruleset(cache=True)
+        if L:
+            s.rrule(RR.rrule(RR.DAILY, dtstart=D0, interval=2, count=(L + 1) // 2, cache=True))
+            if L // 2:
+                s.rrule(RR.rrule(RR.DAILY, dtstart=D0 + D.timedelta(days=1), interval=2, count=L // 2, cache=True))
+        s.exrule(RR.rrule(RR.DAILY, dtstart=D0 + D.timedelta(hours=1), count=L + 2, cache=True))
+        return s
     raise ValueError(driver)
 
 
-def assert_bound(rule):
-    lk = getattr(rule, '_cache_lock', None)
-    if not isinstance(lk, schedule.ModelLock):
-        raise HarnessError("the object under test does not hold a ModelLock (lock seam did not bind)")
+def members_of(rule):
+    """cached member rules of a set (they own locks as well)"""
+    out = []
+    for attr in ('_rrule', '_exrule'):
+        for m in getattr(rule, attr, None) or ():
+            if getattr(m, '_cache', None) is not None:
+                out.append(m)
+    return out
+
+
+def bind_locks(rule, lock_factory):
+    """Every lock the object under test (and its cached members) uses becomes a model lock.  Locks allocated while
+    the factory seam was installed already are; any other attribute holding a real lock -- on the instance or on a
+    class of its MRO, whatever its name -- is replaced here, so that a lock created at import time binds as well.
+    Returns the list of model locks; raises when there is none."""
+    import _thread
+    real_t = type(_thread.allocate_lock())
+    found = []
+    for obj in [rule] + members_of(rule):
+        for name, v in list(vars(obj).items()):
+            if isinstance(v, schedule.ModelLock):
+                found.append(v)
+            elif isinstance(v, real_t):
+                lk = lock_factory()
+                setattr(obj, name, lk)
+                found.append(lk)
+        for cls in type(obj).__mro__:
+            for name, v in list(vars(cls).items()):
+                if isinstance(v, (real_t, schedule.ModelLock)):
+                    lk = lock_factory()              # a fresh one per build: nothing carries over between executions
+                    setattr(cls, name, lk)
+                    found.append(lk)
+    if not found:
+        raise HarnessError("the object under test holds no lock that the harness could bind (lock seam did not bind)")
+    return found
 
 
 # ------------------------------------------------------------------ E2: single thread, many iterators
 class HState(object):
     def __init__(self, driver, L):
-        self.undo = bind_lock_factory(lambda: schedule.ModelLock(lambda: None))
+        factory = lambda: schedule.ModelLock(lambda: None)
+        self.undo = bind_lock_factory(factory)
         try:
             self.rule = make_rule(driver, L)
         finally:
             self.undo()
-        assert_bound(self.rule)
+        self.locks = bind_locks(self.rule, factory)
+        self.members = members_of(self.rule)
         self.its = []          # [iterator, consumed, finished, kind]
         self.L = L
 
@@ -205,7 +248,8 @@ def eval_history(case):
     def canon(st):
         r = st.rule
         return (tuple((it[1], it[2], it[3], it[1] > 0) for it in st.its), len(r._cache or ()),
-                bool(r._cache_complete), r._len, bool(r._cache_lock.locked()))
+                bool(r._cache_complete), r._len, tuple(bool(lk.locked()) for lk in st.locks),
+                tuple((len(m._cache or ()), bool(m._cache_complete)) for m in st.members))
     try:
         res = with_alarm(600.0, history.bfs, fresh, ops_for, h_step, check, canon, depth, 400000)
     except Capped:
@@ -279,7 +323,7 @@ def sched_harness(driver, L, ops):
             rule = make_rule(driver, L)
         finally:
             undo()
-        assert_bound(rule)
+        bind_locks(rule, lock_factory)
         return [thread_body(rule, op, L, E) for op in ops], rule
 
     def check(ex, rule):
@@ -359,6 +403,10 @@ def run(ctx):
                     continue
             depth = maxit * (L + 1) + 3
             hist_cases.append((driver, L, maxit, depth))
+    # cached members inside a cached set: every lock of the nest is a model lock, the state includes the members' caches
+    for L in ([0, 1, 10, 11, 12] if not ctx.thorough else LENGTHS):
+        maxit = 2 if not ctx.thorough or L > 12 else 3
+        hist_cases.append(('nested', L, maxit, maxit * (L + 1) + 3))
     ctx.explore('history-interleavings', hist_cases, 'eval_history', chunk=1)
     sched_cases = []
     pairs = [('iterate', 'iterate'), ('iterate', 'list'), ('list', 'count'), ('iterate', 'last'), ('count', 'slice'),
@@ -372,6 +420,9 @@ def run(ctx):
                 if not ctx.thorough and (driver != 'seq' or L not in (1, 11) or (L == 11 and ops not in pairs[:3])):
                     bound = 1
                 sched_cases.append((driver, L, ops, bound, 150000))
+    for L in ((1, 11) if not ctx.thorough else (0, 1, 10, 11, 21)):
+        for ops in (pairs[:2] if not ctx.thorough else pairs):
+            sched_cases.append(('nested', L, ops, 1 if not ctx.thorough else 2, 150000))
     if ctx.thorough:
         for L in (1, 10, 11):
             sched_cases.append(('seq', L, ('iterate', 'iterate', 'iterate'), 2, 300000))
@@ -398,4 +449,4 @@ def run(ctx):
                 'E3: every schedule of the thread harnesses within the preemption bound (executions = schedules run to completion)',
     })
     ctx.assumptions += ['preemption only at source-line boundaries of rrule.py and at lock acquisition; C code is atomic',
-                        'lock seam: dateutil.rrule._thread.allocate_lock -> ModelLock (bind asserted per object)']
+                        'lock seam: dateutil.rrule._thread.allocate_lock -> ModelLock, plus any lock-typed attribute of the object, its cached members or their classes (bind asserted per object)']
